@@ -222,6 +222,14 @@ func buildSens(c sensCase) *doctree.Node {
 		return obj().Set("get", obj().Set("operationId", str(id)).Set("responses", obj().Set("200", obj().Set("description", str("ok")).
 			Set("content", obj().Set("application/json", obj().Set("schema", obj().Set("$ref", str("#/components/schemas/"+ref))))))))
 	}
+	// bit 25: a list whose element repeats an earlier subtree (with aliasing on it is written "- *a") and
+	// a local reference that walks THROUGH that list element and on below it
+	limParam := obj().Set("name", str("lim")).Set("in", str("query")).Set("schema", numSchema.Clone())
+	viaList := obj().Set("type", str("object")).Set("properties", obj().
+		Set("n", obj().Set("$ref", str("#/paths/~1thing4/get/parameters/0/schema"))))
+	thing4 := obj().Set("get", obj().Set("operationId", str("getThing4")).Set("parameters", doctree.NewArr(limParam)).
+		Set("responses", obj().Set("200", obj().Set("description", str("ok")).
+			Set("content", obj().Set("application/json", obj().Set("schema", obj().Set("$ref", str("#/components/schemas/ViaList"))))))))
 	root := obj().
 		Set("openapi", str("3.0.3")).
 		Set("info", obj().Set("title", str(S(0))).Set("version", str("1.0.0")).Set("description", str(S(1))).Set("x-info", str(S(2)))).
@@ -240,8 +248,14 @@ func buildSens(c sensCase) *doctree.Node {
 			if c.bit(24) {
 				m.Set("Deep", deep)
 			}
+			if c.bit(25) {
+				m.Set("ViaList", viaList)
+			}
 			return m
 		}()))
+	if c.bit(25) {
+		root.Get("paths").Set("/thing4", thing4)
+	}
 	return root
 }
 
@@ -345,6 +359,9 @@ func sensRegress() []sensCase {
 		{Strs: []string{"a", "b"}, Nums: []string{"1"}, Layout: 1<<23 | 1<<24, SC: styleCase{famMain, aliasMain}},
 		{Strs: []string{"a", "b"}, Nums: []string{"1"}, Layout: 1<<23 | 1<<24, SC: styleCase{famAliasRef, aliasRef}},
 		{Strs: []string{"a", "b"}, Nums: []string{"1"}, Layout: 1<<23 | 1<<24, SC: styleCase{famMerge, merge}},
+		{Strs: []string{"a", "b"}, Nums: []string{"1"}, Layout: 1<<23 | 1<<24 | 1<<25, SC: styleCase{famAliasRef, aliasRef}},
+		{Strs: []string{"a", "b"}, Nums: []string{"1"}, Layout: 1<<25, SC: styleCase{famAliasRef, aliasRef}},
+		{Strs: []string{"a", "b"}, Nums: []string{"1"}, Layout: 1<<25, SC: styleCase{famMain, aliasMain}},
 		{Strs: []string{"a", "b", "c"}, Nums: []string{"1", "2"}, Layout: all, SC: styleCase{famMerge, merge}},
 		{Strs: []string{"smile 😀", "b"}, Nums: []string{"1"}, Layout: all, SC: styleCase{famMain, sur}},
 		{Strs: []string{"~", "null", "true", "0x1F", "1e3"}, Nums: []string{"1.0", "1e2", "-0", "1E+2"}, Layout: all, SC: styleCase{famMain, flow}},
